@@ -62,6 +62,22 @@ def concrete(inp):
                     mem = realrun.membrane_for(mix)
                     mems = realrun.membrane_for(sw, P1=0.0000282, P2=0.036091, Ea1=110806.0, Ea2=19944.0)
                     a, b = Pervaporation(mem, mix), Pervaporation(mems, sw)
+                    try:
+                        da = a.ideal_diffusion_curve(T, [mixmod.Composition(x, "weight")], Tp, Pp, 1e-9)
+                        db = b.ideal_diffusion_curve(T, [mixmod.Composition(1 - x, "weight")], Tp, Pp, 1e-9)
+                    except ValueError:
+                        da = db = None
+                    if da is not None:
+                        pa_, pb_ = [float(p.value) for p in da.permeances[0]], [float(p.value) for p in db.permeances[0]]
+                        if not (close(pa_[0], pb_[1], 1e-6) and close(pa_[1], pb_[0], 1e-6)):
+                            bad.append("%s ideal curve (Tp=%r, Pp=%r) permeances %r, relabelled twin %r" % (name, Tp, Pp, pa_, pb_[::-1]))
+                        if not close(da.get_selectivity[0] * db.get_selectivity[0], 1.0, 1e-6):
+                            bad.append("%s ideal curve (Tp=%r, Pp=%r) selectivity %r, relabelled %r (product should be 1)" % (name, Tp, Pp, float(da.get_selectivity[0]), float(db.get_selectivity[0])))
+                        if not close(da.get_separation_factor[0] * db.get_separation_factor[0], 1.0, 1e-6):
+                            bad.append("%s ideal curve (Tp=%r, Pp=%r) separation factor %r, relabelled %r" % (name, Tp, Pp, float(da.get_separation_factor[0]), float(db.get_separation_factor[0])))
+                        for i_ in (0, 1):
+                            if not close(da.partial_fluxes[0][i_], db.partial_fluxes[0][1 - i_], 1e-7):
+                                bad.append("%s ideal curve (Tp=%r, Pp=%r) flux%d %r, relabelled twin %r" % (name, Tp, Pp, i_ + 1, float(da.partial_fluxes[0][i_]), float(db.partial_fluxes[0][1 - i_])))
                     ja = a.calculate_partial_fluxes(T, mixmod.Composition(x, "weight"), 1e-9, Tp, Pp)
                     jb = b.calculate_partial_fluxes(T, mixmod.Composition(1 - x, "weight"), 1e-9, Tp, Pp)
                     if not (close(ja[0], jb[1], 1e-7) and close(ja[1], jb[0], 1e-7)):
